@@ -94,6 +94,9 @@ ssize_t PyTreeSpec::HashValue() const {
 
     static std::unordered_set<ThreadedIdentity> running{};
     static read_write_mutex mutex{};
+#ifdef OPTREE_VERIF_HOOKS
+    OPTREE_VERIF_REGISTER_GUARD_SET("hash_running", running);
+#endif
 
     const ThreadedIdentity ident{this, std::this_thread::get_id()};
     {
